@@ -26,6 +26,8 @@ use crate::visitor::record::RecordComponentVisitor;
 
 pub(crate) mod pool; // needs to be pub(crate) because of the UnknownAttributeVisitor
 mod labels;
+#[cfg(feature = "verif")]
+pub mod verif;
 
 /// Skips the `attributes_count` and `attributes` items of the structs.
 ///
